@@ -5,6 +5,8 @@ open Prelude
 open Engine
 open PyFile
 open Window
+open FileIface
+open CtrIO
 open Driver_base
 
 let opt f = function None -> "-" | Some x -> f x
@@ -57,10 +59,55 @@ let run_window toks =
     String.concat " " (Stdlib.List.map show_wres rs) ^ " | " ^ hex_of_bytes w.wbase.fdata
   | _ -> failwith "window args"
 
+(* ---- primitive call-backs: answered by the Python side over the same pipe ---- *)
+let query (name : string) (args : string list) : string =
+  print_string ("Q " ^ name ^ " " ^ String.concat " " args); print_newline ();
+  input_line stdin
+
+let aes_enc (key : coq_Z list) (blk : coq_Z list) : coq_Z list =
+  bytes_of_hex (query "aes_enc" [hex_of_bytes key; hex_of_bytes blk])
+let aes_dec (key : coq_Z list) (blk : coq_Z list) : coq_Z list =
+  bytes_of_hex (query "aes_dec" [hex_of_bytes key; hex_of_bytes blk])
+
+let parse_cops (toks : string list) : cop list =
+  let rec go toks acc =
+    match toks with
+    | [] -> Stdlib.List.rev acc
+    | "r" :: n :: r -> go r (CRead (z_of_hex n) :: acc)
+    | "s" :: o :: wh :: r -> go r (CSeek (z_of_hex o, z_of_hex wh) :: acc)
+    | "w" :: d :: r -> go r (CWrite (bytes_of_hex d) :: acc)
+    | "t" :: r -> go r (CTell :: acc)
+    | t :: _ -> failwith ("file op " ^ t) in
+  go toks []
+
+let show_cres (r : cres) : string =
+  match r with
+  | CBytes b -> hex_of_bytes b
+  | CInt n -> "i:" ^ hex_of_z n
+  | CErr e -> "e:" ^ err_name e
+
+(* ctr <twl> <plain|window> <off> <sz> <key> <counter> <base> ops... *)
+let run_ctr toks =
+  match toks with
+  | twl :: kind :: off :: sz :: key :: ctr :: base :: ops ->
+    let twl = bool_of_tok twl in
+    let key = bytes_of_hex key and ctr = z_of_hex ctr and ops = parse_cops ops in
+    let f0 = { fdata = bytes_of_hex base; fpos = Z0 } in
+    if kind = "plain" then begin
+      let (rs, io) = ctr_run aes_enc pyfile_ops key ctr twl { cu = f0; ccache = None; cenc = false } ops in
+      String.concat " " (Stdlib.List.map show_cres rs) ^ " | " ^ hex_of_bytes io.cu.fdata
+    end else begin
+      let u = WindowProofs.window_ops (z_of_hex off) (z_of_hex sz) in
+      let (rs, io) = ctr_run aes_enc u key ctr twl { cu = { wbase = f0; wseek = Z0 }; ccache = None; cenc = false } ops in
+      String.concat " " (Stdlib.List.map show_cres rs) ^ " | " ^ hex_of_bytes io.cu.wbase.fdata
+    end
+  | _ -> failwith "ctr args"
+
 let dispatch (line : string) : string =
   match String.split_on_char ' ' (String.trim line) with
   | "engine" :: toks -> run_engine toks
   | "window" :: toks -> run_window toks
+  | "ctr" :: toks -> run_ctr toks
   | e :: _ -> failwith ("unknown entry " ^ e)
   | [] -> ""
 
